@@ -329,6 +329,38 @@ func c06Entries() []c06Entry {
 	}
 }
 
+// Container types that contain themselves without a struct in between. The decoder's compiler
+// follows element types until it meets a struct it has seen, so these recurse until the stack is
+// gone: each sub-case carries its own shape tag because the process does not survive it.
+type c06SelfSlice []c06SelfSlice
+type c06SelfMap map[string]c06SelfMap
+type c06SelfPtrSlice []*c06SelfPtrSlice
+
+func c06SelfRefTypes(c *rt.Ctx, sub0 int) {
+	cases := []struct {
+		name string
+		f    func() error
+	}{
+		{"[]T", func() error { var v c06SelfSlice; return gojson.Unmarshal([]byte("[[],[[]]]"), &v) }},
+		{"map[string]T", func() error { var v c06SelfMap; return gojson.Unmarshal([]byte(`{"a":{"b":null}}`), &v) }},
+		{"[]*T", func() error {
+			var v c06SelfPtrSlice
+			return gojson.NewDecoder(strings.NewReader("[null,[]]")).Decode(&v)
+		}},
+	}
+	for i, cs := range cases {
+		if !c.Cur(sub0+i, "shapes=selfref-container-type\nUnmarshal into a self-referential container type "+cs.name) {
+			continue
+		}
+		pan, msg, frame := rt.Guard(func() { cs.f() })
+		c.Eval(1)
+		if pan {
+			c.Violate(rt.Violation{Monitor: "no-panic", Entry: "Unmarshal", Kind: "panic:" + rt.PanicClass(msg), Ctx: frame + " @ selfref-container-type", Detail: cs.name + ": " + msg, Sub: sub0 + i})
+		}
+		c.Obs("selfref_container_types_survived", 1)
+	}
+}
+
 func c06Run(c *rt.Ctx, sub int, entries []c06Entry, b []byte, class string) {
 	if !c.Cur(sub, "shapes=core\ninput("+class+"): "+rt.Q(b)) {
 		return
@@ -584,6 +616,7 @@ func init() {
 				}
 				c.NonTrivialEnum(int64(n + 1))
 				c06AfterErrors(c, entries, 1000)
+				c06SelfRefTypes(c, 2000)
 			case c.Idx <= n*n:
 				// every string of length 2..2+sufLen with this two-symbol prefix
 				k := c.Idx - 1
